@@ -143,7 +143,7 @@ def gen_steps(r, cols: Dict[str, str], tables: Dict[str, Dict[str, str]], max_st
     steps: List[Dict[str, Any]] = []
     kinds_all = allow or ["extend", "extend", "wextend", "wextend", "owextend", "owextend", "project", "select_rows",
                           "select_columns", "drop_columns", "rename_columns", "map_columns", "order_rows", "order_limit",
-                          "natural_join", "natural_join", "concat_rows"]
+                          "natural_join", "natural_join", "concat_rows", "selfjoin_summary"]
     n_steps = r.randint(1, max_steps)
     tries = 0
     while len(steps) < n_steps and tries < 40:
@@ -314,6 +314,11 @@ def gen_steps(r, cols: Dict[str, str], tables: Dict[str, Dict[str, str]], max_st
                 if st["limit"] == 0:
                     st["limit"] = 1
             steps.append(st)
+            if kind == "order_limit" and len(names) > len(order) and r.random() < 0.4:
+                # a limit in the middle of a pipeline whose consumer no longer carries (all of) the order columns
+                victim = r.choice(order)
+                steps.append({"t": "drop_columns", "cols": [victim]})
+                cols = {c: k for c, k in cols.items() if c != victim}
         elif kind == "natural_join" and depth == 0 and tables and r.random() < 0.12:
             # key-less (cross) join: the Pandas executor joins on a scratch column it adds to both sides
             tn = r.choice(sorted(tables))
@@ -373,6 +378,15 @@ def gen_steps(r, cols: Dict[str, str], tables: Dict[str, Dict[str, str]], max_st
                         if newcols[c2] == "key":
                             newcols[c2] = "int"
             cols = newcols
+        elif kind == "selfjoin_summary" and depth == 0 and nums and groups and (steps or allow == ["selfjoin_summary"]):
+            # diamond: the pipeline so far is joined to a per-group summary of itself (one node, two consumers)
+            by = [r.choice(groups)]
+            v = r.choice(nums)
+            new = _fresh(cols, "tot")
+            fn = r.choice(["sum", "max", "min", "size"])
+            expr = "_size()" if fn == "size" else f"{v}.{fn}()"
+            steps.append({"t": "selfjoin_summary", "by": by, "ops": {new: expr}, "jointype": r.choice(["LEFT", "INNER"])})
+            cols[new] = "nn" if fn == "size" else "float"
         elif kind == "concat_rows" and depth == 0 and tables:
             tn = r.choice(sorted(tables))
             rcols0 = tables[tn]
@@ -392,11 +406,17 @@ def gen_steps(r, cols: Dict[str, str], tables: Dict[str, Dict[str, str]], max_st
     return steps, cols
 
 
-def gen_pipeline(r, tables: Dict[str, Dict[str, Any]], max_steps: int = 7) -> Dict[str, Any]:
+def gen_pipeline(r, tables: Dict[str, Dict[str, Any]], max_steps: int = 7, want_diamond: bool = False) -> Dict[str, Any]:
     tcols = {n: table_columns(t) for n, t in tables.items()}
     src = r.choice(sorted(tables))
     others = {n: c for n, c in tcols.items()}
     steps, cols = gen_steps(r, tcols[src], others, max_steps)
+    if want_diamond and steps and not any(st["t"] == "selfjoin_summary" for st in steps):
+        more, cols2 = gen_steps(r, cols, {}, 1, allow=["selfjoin_summary"])
+        steps = steps + more
+        if more and r.random() < 0.5:
+            tail, _ = gen_steps(r, cols2, {}, 2, allow=["extend", "select_rows", "order_rows", "project"])
+            steps = steps + tail
     return {"src": src, "steps": steps}
 
 
@@ -445,6 +465,9 @@ def apply_step(ops, st, descrs):
     if t == "natural_join":
         b = build_pipeline(st["b"], descrs)
         return ops.natural_join(b=b, on=list(st["on"]), jointype=st["jointype"])
+    if t == "selfjoin_summary":
+        summary = ops.project(dict(st["ops"]), group_by=list(st["by"]))
+        return ops.natural_join(b=summary, on=list(st["by"]), jointype=st["jointype"])
     if t == "concat_rows":
         b = build_pipeline(st["b"], descrs)
         return ops.concat_rows(b=b, id_column=st.get("id_column"))
